@@ -291,6 +291,9 @@ class ResolvePortRefs(ElabPass):
         # make it wide enough for `ArrayFlattener` to hand one slice to each of them.
         if isinstance(portref.inst, InstanceArray) and isinstance(sig, Signal):
             sig.width = port.width * portref.inst.n
+        # For a bundle-valued port the same holds of every signal of the bundle. `BundleFlattener` widens them.
+        if isinstance(portref.inst, InstanceArray) and isinstance(sig, BundleInstance):
+            sig._unconnected_copies = portref.inst.n
 
         # Set the signal name, either from the NoConn or the instance/port names,
         # in either case avoiding everything already in the Module namespace.
